@@ -5,7 +5,7 @@ import random as _random
 from fractions import Fraction
 
 from core.exact import Ex, rs
-from core.rng import ScriptExhausted, patched
+from core.rng import ScriptExhausted, SemanticRandom, installed, patched
 from core.runner import Prop
 
 SHAPES = {
@@ -17,16 +17,16 @@ SHAPES = {
 }
 
 
-def gen_clean_network(rng, nmax, min_topologies=1):
+def gen_clean_network(rng, nmax, min_topologies=1, nmin=8, want_range=(2, 7)):
     names = rng.sample(list(SHAPES), rng.randint(min_topologies, 3))
-    N = rng.randint(8, nmax)
+    N = rng.randint(nmin, nmax)
     edges = {}          # frozenset -> (name, id)
     motifs = []
     jd = [[0] * len(names) for _ in range(N)]
     mid = 0
     for k, nm in enumerate(names):
         size, pat = SHAPES[nm]
-        want = rng.randint(2, 7)
+        want = rng.randint(*want_range)
         placed = 0
         for _ in range(want * 15):
             if placed >= want:
@@ -50,13 +50,70 @@ def gen_clean_network(rng, nmax, min_topologies=1):
     return {"jd": [[v, jd[v]] for v in range(N)], "edges": rows, "names": names, "motifs": motifs}
 
 
+def gen_assortative_network(rng, nmax=26):
+    """vertex classes with prescribed joint degrees on a small grid; every motif is placed inside one class, so the realised
+    pairings are (mostly) class-internal and many class pairs are unrealised — the regime in which a target forbids pairings"""
+    names = rng.sample(["2-clique", "3-clique", "4-cycle"], rng.randint(2, 3))
+    if "2-clique" not in names and rng.random() < 0.7:
+        names[0] = "2-clique"
+    ncls = rng.randint(2, 5)
+    grid = [tuple(t) for t in itertools.product(range(0, 4), repeat=len(names)) if 0 < sum(t) <= 4]
+    if rng.random() < 0.5:                    # classes of equal total degree: excess keys taken at different indices coincide
+        tot = rng.choice([2, 3, 4])
+        same = [t for t in grid if sum(t) == tot]
+        grid = same if len(same) >= 2 else grid
+    wants = rng.sample(grid, min(ncls, len(grid)))
+    members, N = [], 0
+    for _ in wants:
+        k = rng.randint(3, 7)
+        members.append(list(range(N, N + k)))
+        N += k
+        if N >= nmax:
+            break
+    wants = wants[:len(members)]
+    cap = {v: list(w) for w, ms in zip(wants, members) for v in ms}
+    jd = [[0] * len(names) for _ in range(N)]
+    edges, motifs, mid = {}, [], 0
+    for ms in members:
+        for k, nm in enumerate(names):
+            size, pat = SHAPES[nm]
+            for _ in range(60):
+                free = [v for v in ms if cap[v][k] > 0]
+                if len(free) < size:
+                    break
+                free.sort(key=lambda v: (-cap[v][k], rng.random()))
+                vs = free[:size] if rng.random() < 0.7 else rng.sample(free, size)
+                rng.shuffle(vs)
+                es = [frozenset((vs[a], vs[b])) for a, b in pat]
+                if any(e in edges for e in es):
+                    continue
+                for e in es:
+                    edges[e] = (nm, mid)
+                for v in vs:
+                    jd[v][k] += 1
+                    cap[v][k] -= 1
+                motifs.append({"id": mid, "name": nm, "verts": vs})
+                mid += 1
+    perm = list(range(N))
+    rng.shuffle(perm)
+    rows = []
+    for e, (nm, m) in edges.items():
+        a, b = [perm[x] for x in e]
+        rows.append([a, b, nm, m] if rng.random() < 0.5 else [b, a, nm, m])
+    rng.shuffle(rows)
+    jdl = sorted([perm[v], jd[v]] for v in range(N))
+    for mo in motifs:
+        mo["verts"] = [perm[v] for v in mo["verts"]]
+    return {"jd": jdl, "edges": rows, "names": names, "motifs": motifs}
+
+
 def excess(row, i):
     r = list(row)
     r[i] -= 1
     return tuple(r)
 
 
-def gen_target(rng, net, mode):
+def gen_target(rng, net, mode, pdrop=0.45):
     jd = {v: row for v, row in net["jd"]}
     target = []
     for i, nm in enumerate(net["names"]):
@@ -69,7 +126,7 @@ def gen_target(rng, net, mode):
         table = {}
         for x, y in itertools.combinations_with_replacement(classes, 2):
             w = Fraction(rng.randint(1, 12), rng.choice([1, 2, 4]))
-            drop = mode != "full" and rng.random() < 0.45 and (x + y) not in realized
+            drop = mode != "full" and rng.random() < pdrop and (x + y) not in realized
             if drop and mode == "sparse":
                 continue
             if drop and mode == "zeros":
@@ -120,6 +177,8 @@ class MCMCProp(Prop):
         mode = rng.choice(self.modes)
         c = dict(net)
         c["target"] = gen_target(rng, net, mode)
+        if len(c["target"]) > 1 and rng.random() < 0.5:
+            rng.shuffle(c["target"])                 # the target dict need not be listed in EDGE_NAMES order
         c["target_mode"] = mode
         c["rseed"] = rng.getrandbits(30)
         if rng.random() < 0.15:
@@ -128,6 +187,21 @@ class MCMCProp(Prop):
             c["limits"] = [rng.randint(1, 12 if tier == "quick" else 60), rng.randint(5, 25)]
         c["grid"] = rng.choice([4, 10, 50])
         c["max_draws"] = 4000 if tier == "quick" else 20000
+        return c
+
+    def gen_dense(self, rng, i, tier):
+        """few vertices, many motifs, several topologies: joint degrees fill a small grid, so that excess keys of different
+        vertex classes (and of different topologies) coincide; most unrealised pairings are forbidden"""
+        net = gen_clean_network(rng, 12, 2, nmin=7, want_range=(3, 9)) if rng.random() < 0.3 else gen_assortative_network(rng)
+        c = dict(net)
+        c["target"] = gen_target(rng, net, "sparse", pdrop=rng.choice([0.5, 0.8, 0.9]))
+        if rng.random() < 0.7:
+            rng.shuffle(c["target"])
+        c["target_mode"] = "sparse"
+        c["rseed"] = rng.getrandbits(30)
+        c["limits"] = [rng.randint(3, 20), rng.randint(5, 25)]
+        c["grid"] = rng.choice([4, 10, 50])
+        c["max_draws"] = 4000
         return c
 
     # ------------------------------------------------------------------ instrumented run
@@ -154,15 +228,26 @@ class MCMCProp(Prop):
             if budget["n"] > case["max_draws"]:
                 raise ScriptExhausted()
 
-        def fake_choice(seq):
-            tick()
-            return seq[prng.randrange(len(seq))]
+        class R(SemanticRandom):
+            """corner draws: one uniform choice among the edges each (an index, or a number in [0,1) scaled by the set's size when
+            the edge set draws that way); Metropolis draws: uniform numbers on the case's grid"""
 
-        def fake_random():
-            tick()
-            r = Ex(Fraction(prng.randint(0, case["grid"] - 1), case["grid"]))
-            budget["last_r"] = r
-            return r
+            def on_uniform(self, n, ctx):
+                tick()
+                return prng.randrange(n)
+
+            def on_float(self, ctx):
+                tick()
+                if ctx["file"] == "draw_set.py":
+                    try:
+                        n = len(ctx["self"])
+                    except TypeError:
+                        return super().on_float(ctx)
+                    return (prng.randrange(n) + 0.5) / n if n else 0.0
+                r = Ex(Fraction(prng.randint(0, case["grid"] - 1), case["grid"]))
+                budget["last_r"] = r
+                return r
+        sem = R()
         calls = []
         orig = mod.MarkovChainMonteCarloRewiring.swap_condition
 
@@ -182,8 +267,7 @@ class MCMCProp(Prop):
             return {"exc": type(e).__name__, "msg": "constructor: " + str(e)[:200], "where": []}
         obs["limits_used"] = [mc.convergence_limit if isinstance(mc.convergence_limit, int) else repr(mc.convergence_limit), mc.search_limit]
         final = None
-        with patched(mod.MarkovChainMonteCarloRewiring, "swap_condition", wrapped), \
-                patched(draw_set.random, "choice", fake_choice), patched(random, "random", fake_random):
+        with patched(mod.MarkovChainMonteCarloRewiring, "swap_condition", wrapped), installed(sem):
             try:
                 Gout = mc.rewire()
                 final = snapshot(Gout)
@@ -194,6 +278,7 @@ class MCMCProp(Prop):
             except mod.ErrorMarkovChainMonteCarloRewiring as e:
                 obs["raised"] = str(e)[:200]
         obs["calls"] = calls
+        obs["rng_unexpected"] = sem.summary()["n_unexpected"]
         obs["final"] = final
         obs["input_untouched"] = (list(net.G.nodes(data=True)), snapshot(net.G)) == before
         return obs
@@ -335,9 +420,10 @@ class MCMCProp(Prop):
                     continue
                 i = names.index(t)
                 xa, xb = excess(jd[a], i), excess(jd[b], i)
-                if not (target[t].get(xa + xb, 0) > 0 and target[t].get(xb + xa, 0) > 0):
+                tt = target.get(t, {})
+                if not (tt.get(xa + xb, 0) > 0 and tt.get(xb + xa, 0) > 0):
                     f.append(f"forbidden-pairing: created {t} edge ({a},{b}) joins excess classes {xa},{xb} whose target weight is "
-                             f"{target[t].get(xa + xb, 'absent')}")
+                             f"{tt.get(xa + xb, 'absent')}")
                     return f
         return f
 
